@@ -305,13 +305,19 @@ def l7b_sample_non_matches(n: int, max_n: Optional[int], dae: int, picks: List[i
     # the default check function (check_for_failures -> sample_non_matches -> find_non_matches) must honour the
     # check-function contract extract() relies on: max_n None => EVERY non-matching example is returned;
     # a number => at most that many... and all of them when there are no more than that
-    strings = ['a', '1', '#', ' '][:n]
+    if P.get('nl'):
+        # an example that is another example plus a final line end: '^a$' matches 'a\n' up to the newline,
+        # which is not a match in full, so 'a\n' counts as unmatched unless its own expression is live
+        strings = ['a', 'a\n', '1', '#'][:n]
+        own = ['^a$', '^a\\\n$', '^1$', '^\\#$']
+    else:
+        strings = ['a', '1', '#', ' '][:n]
+        own = ['^a$', '^1$', '^\\#$', '^ $']
     x = _LoopX.__new__(_LoopX)
     x.size = Size(do_all=100, do_all_exceptions=dae, max_sampled_attempts=2)
     x.all_examples = Examples(list(strings), [1] * n)
     x.results = object()
-    rexes = ['^a$', '^1$', '^\\#$', '^ $'][:n]
-    rexes = [r if m else '^zzz%d$' % i for i, (r, m) in enumerate(zip(rexes, matched))]
+    rexes = [r if m else '^zzz%d$' % i for i, (r, m) in enumerate(zip(own[:n], matched))]
     fr = FakeRandom(picks)
     saved = rx.random
     rx.random = fr
@@ -319,7 +325,7 @@ def l7b_sample_non_matches(n: int, max_n: Optional[int], dae: int, picks: List[i
         ex, freqs = x.check_for_failures(rexes, max_n)
     finally:
         rx.random = saved
-    fails = [s_ for s_, m in zip(strings, matched) if not m]
+    fails = [s_ for s_ in strings if not any(re.fullmatch(r, s_, RE_FLAGS) for r in rexes)]
     got = list(ex.strings)
     if len(set(got)) != len(got) or not all(g in fails for g in got):
         return False
@@ -334,7 +340,7 @@ def lift_l7(n, do_all, dae, msa, picks):
     ok = True
     for seed in (None, 1, 2, 3):
         r = rx.extract(ex, size=Size(do_all=do_all, do_all_exceptions=dae, max_sampled_attempts=msa), seed=seed)
-        ok = ok and all(any(re.match(p, e, RE_FLAGS) for p in r) for e in ex)
+        ok = ok and all(any(_full(p, e) for p in r) for e in ex)
     return ok
 
 
@@ -369,6 +375,11 @@ def l6_merge(p1: List[int], p2: List[int], p3: List[int]) -> bool:
 E2E_ALPHABET = 'aB1^- '
 
 
+def _full(pattern, text):
+    """'matched in full': the whole text, not the text up to a final newline that `$` tolerates"""
+    return re.fullmatch(pattern, text, RE_FLAGS) is not None
+
+
 def _text(idx, alphabet):
     out = ''
     for i in idx:
@@ -382,22 +393,56 @@ def _text(idx, alphabet):
 def l8_pipeline(i1: List[int], i2: List[int], i3: List[int]) -> bool:
     """
     pre: len(i1) <= P['len'] and len(i2) <= P['len2'] and len(i3) <= (P['len2'] if P['three'] else 0)
-    pre: all(0 <= i < len(E2E_ALPHABET) for i in i1 + i2 + i3)
+    pre: all(0 <= i < len(P.get('alpha') or E2E_ALPHABET) for i in i1 + i2 + i3)
     post: __return__
     """
-    ex = [_text(i1, E2E_ALPHABET), _text(i2, E2E_ALPHABET)]
+    alpha = P.get('alpha') or E2E_ALPHABET
+    ex = [_text(i1, alpha), _text(i2, alpha)]
     if P['three']:
-        ex.append(_text(i3, E2E_ALPHABET))
+        ex.append(_text(i3, alpha))
     kw = dict(P.get('kw') or {})
     r = rx.extract(list(ex), dialect=DIALECT, **kw)
-    if kw.get('strip'):
-        pass            # the expressions carry the whitespace wrapper; examples are matched as given
     for e in ex:
         if kw.get('remove_empties') and e.strip() == '' and kw.get('strip'):
             continue
         if kw.get('remove_empties') and e == '':
             continue
-        if not any(re.match(p_, e, RE_FLAGS) for p_ in r):
+        if not any(_full(p_, e) for p_ in r):
+            return False
+    return True
+
+
+SMALL_SIZE = {'do_all': 1, 'do_all_exceptions': 1, 'n_per_length': 1, 'max_sampled_attempts': 2}
+
+
+def l8_sampled(i1: List[int], i2: List[int], i3: List[int], picks: List[int]) -> bool:
+    """
+    pre: len(i1) <= 2 and len(i2) <= P['len3'] and len(i3) <= P['len3'] and len(picks) <= P['picks']
+    pre: all(0 <= i < len(P['alpha']) for i in i1 + i2 + i3) and all(0 <= p < 3 for p in picks)
+    post: __return__
+    """
+    # a Size so small that extraction works from a sample of the examples and relies on its own failure
+    # check to find the ones its expressions do not yet match; random.sample answers arbitrarily
+    alpha = P['alpha']
+    ex = [_text(i1, alpha), _text(i2, alpha), _text(i3, alpha)]
+    fr = FakeRandom(picks)
+    saved = rx.random, rx.ilist
+    rx.random = fr
+    rx.ilist = rexpy_common.plain_ilist     # array('i').extend(generator) is mis-modelled under tracing
+    try:
+        r = rx.extract(list(ex), dialect=DIALECT, size=Size(**SMALL_SIZE), seed=1)
+    finally:
+        rx.random, rx.ilist = saved
+    return all(any(_full(p_, e) for p_ in r) for e in ex)
+
+
+def lift_l8_sampled(i1, i2, i3, picks):
+    """public API, real random: some seed must show it (the picks stand for an arbitrary seed)"""
+    alpha = P['alpha']
+    ex = [_text(i1, alpha), _text(i2, alpha), _text(i3, alpha)]
+    for seed in range(40):
+        r = rx.extract(list(ex), dialect=DIALECT, size=Size(**SMALL_SIZE), seed=seed)
+        if not all(any(_full(p_, e) for p_ in r) for e in ex):
             return False
     return True
 
@@ -430,13 +475,13 @@ def l8_code_letters(ci: int, v1: int, v2: int, v3: int, shape: int) -> bool:
         ex = [c + c + ' ' + p_ for p_ in parts]
     kw = dict(P.get('kw') or {})
     r = rx.extract(list(ex), dialect=DIALECT, **kw)
-    return all(any(re.match(p_, e, RE_FLAGS) for p_ in r) for e in ex)
+    return all(any(_full(p_, e) for p_ in r) for e in ex)
 
 
 # ---- lifting per-character lemmas to the public API ---------------------------------------
 def _all_matched(examples, **kw):
     r = rx.extract(list(examples), dialect=DIALECT, extra_letters=EXTRA, **kw)
-    return all(any(re.match(p, e, RE_FLAGS) for p in r) for e in examples)
+    return all(any(_full(p, e) for p in r) for e in examples)
 
 
 def lift_char(c, *rest):
@@ -520,6 +565,11 @@ def _obs():
                   'it returns distinct non-matching examples, all of them when there are no more than N',
                   '<=4 examples with symbolic matched/unmatched pattern; max_n None or 0..4; do_all_exceptions 1..4; '
                   'symbolic sample picks', timeout=300, stubs=['random -> FakeRandom (arbitrary subsets)']))
+    obs.append(Ob('L7b', 'l7b_sample_non_matches', 'the default check function reports an example that is matched only '
+                  'up to its final newline (not in full) as unmatched',
+                  '<=4 examples a, a+newline, 1, # with symbolic live/dead own expressions; max_n None or 0..4; '
+                  'do_all_exceptions 1..4; symbolic sample picks', param={'nl': 1}, timeout=300,
+                  stubs=['random -> FakeRandom (arbitrary subsets)']))
     obs.append(Ob('L5f', 'l5f_space', 'every character str.strip() removes is re-admitted by the \\s* wrapper',
                   'c: any one code point with c.isspace()', timeout=60))
     for (n, k, msa, tier, to) in ((3, 2, 1, 'quick', 240), (4, 3, 2, 'thorough', 3000)):
@@ -561,6 +611,22 @@ def _obs():
                   'every triple of strings of lengths <=2, <=1, <=1 over the alphabet %r; portable; variableLengthFrags'
                   % E2E_ALPHABET, param={'dialect': 'portable', 'kw': {'variableLengthFrags': True}, 'len': 2,
                                          'len2': 1, 'three': True}, timeout=7000, tier='thorough'))
+    for alpha, tier in (('a\n', 'quick'), ('a1 \n', 'thorough')):
+        obs.append(Ob('L8', 'l8_pipeline', 'end to end with line ends inside the examples: every example is matched IN '
+                      'FULL (re.fullmatch; `$` alone also accepts the text up to a final newline) by one of the '
+                      'expressions returned', 'every pair of strings of length <=2 over the alphabet %r; portable; '
+                      'default Size' % alpha,
+                      param={'dialect': 'portable', 'kw': {}, 'len': 2, 'len2': 2, 'three': False, 'alpha': alpha},
+                      timeout=600 if tier == 'quick' else 3000, tier=tier))
+    for alpha, len3, tier in (('a\n', 1, 'quick'), ('a1\n', 1, 'thorough')):
+        obs.append(Ob('L8', 'l8_sampled', 'end to end when extraction works from a sample (tiny Size): every example, '
+                      'including one that is another example plus a final newline, is matched IN FULL by one of the '
+                      'expressions returned, whatever random.sample picks',
+                      'every triple of strings of lengths <=2, <=%d, <=%d over the alphabet %r; portable; Size(%r); <=%d '
+                      'symbolic sample picks' % (len3, len3, alpha, SMALL_SIZE, len3 + 1),
+                      param={'alpha': alpha, 'len3': len3, 'picks': len3 + 1, 'dialect': 'portable'},
+                      timeout=600 if tier == 'quick' else 3000, tier=tier, lift='lift_l8_sampled',
+                      stubs=['random -> FakeRandom (arbitrary subsets)', 'rexpy.ilist -> plain list']))
     for d, kw, tier in (('portable', {}, 'quick'), ('perl', {'tag': True}, 'thorough'),
                         ('grep', {'variableLengthFrags': True}, 'thorough')):
         obs.append(Ob('L8', 'l8_code_letters', 'end to end: examples whose constant field is a character rexpy also '
